@@ -82,7 +82,7 @@ def run(ck):
     for j in eq_s:
         f = term_io.build_public(j, env)
         emit("propagate_toplevel", f, lambda x: rw.propagate_toplevel(x, env))
-        if eid[0] % 3 == 0:
+        if ck.rng.random() < 0.34:
             emit("propagate_toplevel_nosimp", f, lambda x: rw.propagate_toplevel(x, env, do_simplify=False))
     verdicts, st = tlc.validate_events("Trace_Pure", evs, constants={"Seed": ck.seed % 1000, "Cap": 48 if quick else 128})
     ck.add_tlc(st)
